@@ -847,6 +847,64 @@ func c05LiteralsE2E(c *Ctx) {
 	}
 }
 
+// c05TablesE2E: a log that holds several mapreduce tables whose names are prefixes, suffixes and infixes of each other
+// (STATS, STATS2, S, XSTATS, TATS) next to plain lines, split over two files; a complete dmap session per table: the
+// result is the evaluation over exactly the lines of the table the query names.
+func c05TablesE2E(c *Ctx) {
+	if c.Shard != 0 {
+		return
+	}
+	tables := []string{"STATS", "STATS2", "S", "XSTATS", "TATS", "STATS_OLD"}
+	var files [2]strings.Builder
+	want := map[string]map[string][2]float64{}
+	n := 0
+	for ti, t := range tables {
+		want[t] = map[string][2]float64{}
+		for i := 0; i <= ti; i++ {
+			for _, k := range []string{"a", "b"} {
+				n++
+				v := float64(100*(ti+1) + i)
+				fmt.Fprintf(&files[n%2], "INFO|20211002-071209|1|f.go:1|8|10|0|0.1|1h|MAPREDUCE:%s|k=%s|v=%v\n", t, k, v)
+				e := want[t][k]
+				want[t][k] = [2]float64{e[0] + 1, e[1] + v}
+			}
+		}
+		fmt.Fprintf(&files[ti%2], "a plain line that mentions MAPREDUCE:%s in its text\n", t)
+	}
+	p0 := WriteScratch("c05/tables-0.log", files[0].String())
+	p1 := WriteScratch("c05/tables-1.log", files[1].String())
+	for ti, t := range tables {
+		outfile := fmt.Sprintf("%s/c05-tables-%d.csv", Scratch(), ti)
+		var got ClientResult
+		res := vrt.Run(vrt.Config{MaxSteps: 5000000, Horizon: 10 * time.Minute}, func() {
+			os.Remove(outfile)
+			args := DefaultArgs()
+			args.Mode = omode.MapClient
+			args.NoColor = true
+			args.Quiet = true
+			args.LogLevel = "error"
+			args.What = p0 + "," + p1
+			args.QueryStr = fmt.Sprintf("select k,count(k),sum(v) from %s group by k outfile %s", t, outfile)
+			got = RunClientBody(ClientOpts{Kind: "map", Args: args})
+		})
+		c.Count("tables-e2e|" + t)
+		b, _ := os.ReadFile(outfile)
+		rows := map[string][2]float64{}
+		for j, l := range strings.Split(strings.TrimSpace(string(b)), "\n") {
+			if f := strings.Split(l, ","); j > 0 && len(f) == 3 {
+				var cnt, sum float64
+				fmt.Sscanf(f[1], "%g", &cnt)
+				fmt.Sscanf(f[2], "%g", &sum)
+				rows[f[0]] = [2]float64{cnt, sum}
+			}
+		}
+		if res.Fail != nil || got.Status != 0 || fmt.Sprint(rows) != fmt.Sprint(want[t]) {
+			c.Violation("lines-of-another-table-in-the-result", fmt.Sprintf("dmap 'select k,count(k),sum(v) from %s group by k' over two files holding the tables %v: result (key: count, sum) %v, the lines of table %s give %v (status %d %v)",
+				t, tables, rows, t, want[t], got.Status, res.Fail), map[string]string{"table": t})
+		}
+	}
+}
+
 func c05Run(c *Ctx) {
 	c05Literals(c)
 	full := c.Thorough()
@@ -891,13 +949,14 @@ func init() {
 		Rule: "tables of <=2 (quick) / <=3 (thorough, generickv) log lines over 6-8 line shapes per format (generickv, default, csv; lines lacking a selected field, non-numeric values, negative values, other tables), every assignment of the lines " +
 			"to cells {server0/file0/interval0, server0/file0/interval1, server0/file1, server1/file0}, x ~150 queries (select lists over count/sum/min/max/avg/len/last, where none/float/string, group by k/default, order/rorder/limit, set); " +
 			"each runs the real server Aggregate per server (lines fed per file, Serialize at the interval boundary), the real client MaprHandler/client.Aggregate and GlobalGroupSet.WriteResult; differential oracle: CSV result of the partitioned run == " +
-			"CSV result of the same code with the trivial partition (float tolerance 1e-9, ties in any order, limit keeps the best rows); last/len only on group-constant fields so that no choice is involved; non-trivial = non-trivial partition and non-empty result",
+			"CSV result of the same code with the trivial partition (float tolerance 1e-9, ties in any order, limit keeps the best rows); last/len only on group-constant fields so that no choice is involved; plus complete dmap sessions over two files that hold six tables whose names are prefixes, suffixes and infixes of each other (STATS, STATS2, S, XSTATS, TATS, STATS_OLD) and plain lines mentioning them: 'from T' yields exactly the evaluation over the lines of table T; non-trivial = non-trivial partition and non-empty result",
 		Assumptions: []string{"canonical schedule for the table x partition x query product (C06 explores schedules); interval boundaries are placed at quiescent points; the client's reporting path (interim report, final report, arriving partial results) is explored under all schedules within 2 deviations; partial results with 16 large/tiny/negative/fractional values go through the real serialisation and merge and are compared with the directly merged sets"},
 		Run: func(c *Ctx) {
 			c05Reporting(c)
 			if c.Shard == 0 {
 				c05LargeValues(c)
 				c05LiteralsE2E(c)
+				c05TablesE2E(c)
 			}
 			res := vrt.Run(vrt.Config{MaxSteps: 1 << 50, Horizon: 1 << 60}, func() {
 				args := DefaultArgs()
